@@ -36,6 +36,8 @@ def _variant_run(v):
                 return real.now(tz) + shift
         torrent.datetime = Shifted
     prefix = ["-q"] if v.get("quiet") else []
+    if v["route"].startswith("cli") and v["path"].startswith("-"):
+        v = dict(v, path="./" + v["path"])      # a relative path that looks like an option must be spelled ./-x on any CLI
     oc = drive.create(v["route"], v["path"], v["outfile"], piece_length=v["pl"], progress=v["progress"],
                       announce=v.get("announce"), url_list=v.get("url_list"), httpseeds=v.get("httpseeds"),
                       private=v.get("private", False), source=v.get("source"), comment=v.get("comment"),
